@@ -1,5 +1,5 @@
 #!/bin/sh
 # runs every quick check once and prints wall / cpu / verdict line
 for c in C01 C02 C03 C04 C05 C06 C07 C08 C09 C10 C11 C12 C13 C14 C15 C16 C17 C18 C19 C20; do
-  /usr/bin/time -f "$c wall=%es cpu=%Us" ./check $c 2>&1 | grep -E "wall=|quick:|^VIOLATION|HARNESS|KNOWN" | grep -v "^VIOLATION" | cut -c1-230
+  /usr/bin/time -f "$c wall=%es cpu=%Us" ./check $c 2>&1 | grep -E "wall=|quick:|^VIOLATION|HARNESS|KNOWN|worker for item|ENGINE-MISMATCH" | grep -v "^VIOLATION" | cut -c1-230
 done
